@@ -280,6 +280,11 @@ def replay(iset, memarch, nregions, inputs, ob):
                     diff['cpsr.AIF'] = ((c0 >> 6) & 7, (c1 >> 6) & 7)
                 lines.append('privileged leaves changed from User mode: %s' % {k: (_h(a), _h(b)) for k, (a, b) in diff.items()})
                 bad = bool(diff)
+    elif kind == 'post.abort':
+        # registers other than the abort mode's LR/SPSR and the fault registers must be as before
+        keep = {k: (_h(init[k]), _h(final[k])) for k in final if k.startswith('R.') and final[k] != init[k] and k not in ('R.PC', 'R.LRabt', 'R.LRmon', 'R.LRusr')}
+        lines.append('registers changed although the access aborted: %s' % keep)
+        bad = bool(keep) or bool(sc.writes and not type(eo).__name__.startswith('Strd'))
     elif kind in ('decode.class', 'post', 'post.unpred'):
         from spec import encodings as ENC
         from spec import stepspec as SS
